@@ -123,6 +123,9 @@ def incb_case(ctx, case):
         os.chdir(old)
         shutil.rmtree(root, ignore_errors=True)
     want = b'\x01' + content + b'\x02'
+    if out is None and case.get('may_refuse'):
+        ctx.count('refused_names')          # a file name that looks like other syntax may be refused, but not silently turned into something else
+        return
     if out != want:
         ctx.violation('%s:include_bytes:%s' % (PROP, 'wrong-bytes' if out is not None else 'refused'),
                       'include_bytes %s (%d bytes, file %s) assembled from cwd=%s gives %s' % (rel, len(content), where, case['cwd'], out.hex()[:40] if out is not None else err),
@@ -229,10 +232,10 @@ def incb_cases(tier):
             for cwd in ('src', 'other', 'decoy-same', 'decoy-diff'):
                 cases.append(dict(content=content, where=where, cwd=cwd))
     # file names with upper-case letters, digits, dots and dashes (the written name must be used as written)
-    for name in ('Logo.DAT', 'FONT-8x8.Bin', 'a.b.c', 'X'):
+    for name in ('Logo.DAT', 'FONT-8x8.Bin', 'a.b.c', 'X', '=', 'a=b', '==', 'x:', '%hi', 'string', 'include_bytes', '0x10', '-1'):      # names that look like other syntax
         for where in ('beside', 'sub', 'incdir'):
             for cwd in ('src', 'other', 'decoy-same'):
-                cases.append(dict(content=b'\x11\x22\x33', where=where, cwd=cwd, name=name))
+                cases.append(dict(content=b'\x11\x22\x33', where=where, cwd=cwd, name=name, may_refuse=not name[0].isalpha() or not name.replace('.', '').replace('-', '').isalnum()))
     return cases
 
 
